@@ -738,6 +738,7 @@ def run_cases(cases, ctx):
             else:
                 hist['monitor:outside-domain'] = hist.get('monitor:outside-domain', 0) + 1
         ans = lib.run_driver_parallel(ctx['monitor_exe'], reqs)
+        raw = []
         for (k, who), a in zip(idx, ans):
             try:
                 v = int(a)
@@ -753,10 +754,23 @@ def run_cases(cases, ctx):
                 disagreements.append({'case': c, 'summary': describe(c, o),
                                       'difference': 'holds_C14 rejects the MODEL\'s output: verdict %s' % a})
                 continue
+            raw.append((k, v, a))
+        # one representative per (verdict, exception, feature class of the unshrunk case), smallest first;
+        # at most 6 are shrunk and reported, the others are further instances of the same classes
+        groups = {}
+        for (k, v, a) in raw:
+            g = (v, obs[k].get('raised'), tuple(_features(cases[k])))
+            size = sum(len(x) for x in cases[k]['files'].values())
+            if g not in groups or size < groups[g][0]:
+                groups[g] = (size, k, v, a)
+        t_min = time.time()
+        for g in sorted(groups, key=lambda g: (groups[g][0], str(g)))[:6]:
+            _, k, v, a = groups[g]
+            c, o = cases[k], obs[k]
             cm = c
-            if ctx.get('tier') != 'replay':
+            if ctx.get('tier') != 'replay' and time.time() - t_min < 120:
                 try:
-                    cm = minimize(c, ctx, v)
+                    cm = minimize(c, ctx, v, budget=25)
                 except Exception:  # noqa
                     cm = c
             try:
@@ -766,6 +780,8 @@ def run_cases(cases, ctx):
             violations.append({'case': cm, 'summary': describe(cm, om), 'signature': signature(cm, om, v),
                                'what': what(cm, om, v), 'observed': ['verdict %s' % a, om.get('raised') or 'built'],
                                'expected': 'verdict 0'})
+        if len(raw) > len(violations):
+            hist['monitor:violations-not-shrunk (same classes)'] = len(raw) - len(violations)
     keys = set()
     for c, o in zip(cases, obs):
         k = nontrivial_key(c, o)
